@@ -61,9 +61,9 @@ def matchOrError (o : Obs) (c : Nat) : Bool := daemonMatches o c || isError (o.s
 
 inductive Act where
   | track (p : PinSpec) | untrack (c : Nat) | recover (c : Nat) | recoverAll
-  | effect (c : Nat)      -- the daemon applies the parked call for c
-  | ok (c : Nat)          -- ... applies it if it has not yet, and answers nil
-  | err (c : Nat)         -- the daemon answers an error
+  | effect (c : Nat) (sel : Option CallKind)  -- the daemon applies the (oldest) parked call for c [of that kind]
+  | ok (c : Nat) (sel : Option CallKind)      -- ... applies it if it has not yet, and answers nil
+  | err (c : Nat) (sel : Option CallKind)     -- the daemon answers an error
   | lose (c : Nat)        -- the daemon drops the pin behind the tracker's back
   | race (d : Act) (i : Act)  -- the daemon answers (`ok` / `err`) while instruction `i` is being issued:
                               -- the two are not ordered
@@ -80,7 +80,7 @@ structure Frame where
   obs : Obs                     -- at the stable point after the action
 
 def healthyAct : Act → Bool
-  | .effect _ | .ok _ => true
+  | .effect _ _ | .ok _ _ => true
   | _ => false
 
 /-- the instruction of an action, if it is one -/
